@@ -299,7 +299,7 @@ where
 
     let (mindepth, maxdepth) = if let Some(target_time) = options.target_integration_time {
         let step_size = hamiltonian.step_size();
-        let max_steps = (target_time / step_size).ceil() as u64;
+        let max_steps = ((target_time / step_size).ceil() as u64).max(1);
         let mindepth = (max_steps as f64)
             .log2()
             .floor()
@@ -312,6 +312,8 @@ where
             .to_u64()
             .unwrap()
             .max(mindepth)
+            // A single leapfrog step needs one doubling.
+            .max(1)
             .min(options.maxdepth);
 
         (mindepth, maxdepth)
